@@ -23,11 +23,15 @@ def table(draw, nwn, mag=None, tspan=(80.0, 3500.0)):
     else:
         lo, hi = MAGS[mag]
         base = draw(fl(lo, hi))
-        span = draw(st.sampled_from([0.0, 1.0, 3.0]))
+        span = draw(st.sampled_from([1.0, 3.0, 0.0, 1.0]))       # constant tables are the exception, not the rule
         # log10 table = base + dpt[p,t] + dw[wn]: few draws, still non-separable in (T,P)
         dpt = [0.0] * (nT * nP) if span == 0.0 else draw(st.lists(fl(0.0, span), min_size=nT * nP, max_size=nT * nP))
         dw = [0.0] * nwn if span == 0.0 else draw(st.lists(fl(0.0, span), min_size=nwn, max_size=nwn))
-    return {'T0': T0, 'dT': dT, 'lP0': lP0, 'dlP': dlP, 'mag': mag, 'base': base, 'dpt': dpt, 'dw': dw}
+    # 'ripple': the realised table also carries a fixed, index-dependent pattern along wavenumber and (T,P) (see
+    # synth.table_arrays), so that drawn zeros cannot make it constant along an axis: a constant axis hides every
+    # misalignment along that axis
+    return {'T0': T0, 'dT': dT, 'lP0': lP0, 'dlP': dlP, 'mag': mag, 'base': base, 'dpt': dpt, 'dw': dw,
+            'ripple': bool(mag != 'zero' and span > 0.0)}
 
 
 @st.composite
@@ -76,6 +80,14 @@ def world(draw, layers=(2, 40), nwn=(1, 12), max_active=3, mags=None, temps=('ct
         'lpcloud': draw(fl(-1.5, 1.5)),           # cloud top as fraction of the log-pressure range
     }
     return w
+
+
+def pick(options):
+    """one of `options`, chosen by a wide integer draw modulo the number of options.  Used for the top-level choice of
+    what a case is about: sampled_from keeps re-using the first few indices when Hypothesis mutates earlier examples, and
+    a whole run of 150 cases was once seen without a single case of one part"""
+    options = list(options)
+    return st.integers(0, 2 ** 24).map(lambda i, o=options: o[i % len(o)])
 
 
 def ints(a, b):
